@@ -140,6 +140,8 @@ class Cond:
             if f in self.t.get('bool_calls', {}) and not node.args and not node.keywords:
                 return self.t['bool_calls'][f]
             raise Untranslatable('call in a condition: ' + ast.unparse(node)[:80])
+        if isinstance(node, ast.Name) and isinstance(env.get(node.id), str) and env[node.id].startswith('bool:'):
+            return env[node.id][5:]                  # a local holding the value a declared flag had at entry
         p = self.text(node)
         if p in self.t.get('bools', {}):
             return self.t['bools'][p]
@@ -184,16 +186,34 @@ class Acts:
         if is_logging(s) or isinstance(s, (ast.Assert, ast.Pass)):
             return self.acts(rest, env, ind, handlers)
         if isinstance(s, ast.Try):
-            if s.orelse or s.finalbody or len(s.handlers) != 1:
+            if s.orelse or len(s.handlers) != 1:
                 raise Untranslatable('try statement shape')
             h = s.handlers[0]
             if not (isinstance(h.type, ast.Name) and h.type.id == 'Exception'):
                 raise Untranslatable('handler other than `except Exception`')
-            after = [] if ends(h.body) else rest
+            final = list(s.finalbody)
+            hbody = list(h.body)
+            if final:
+                # `finally`: its statements run after the body (outside the handler's reach) and, when the handler
+                # ends with a bare `raise`, between the handler's other statements and the re-raise.  Supported
+                # shape: non-raising declared attribute assignments only; the only exit of body / handler besides
+                # falling through is that final bare `raise` (an exception the handler does not catch - a
+                # BaseException - runs the same statements; it is outside the fault model of the primitives)
+                for f in final:
+                    if not (isinstance(f, ast.Assign) and len(f.targets) == 1
+                            and self.text(f.targets[0]) in self.t.get('assign_prims', {})
+                            and isinstance(self.t['assign_prims'][self.text(f.targets[0])], list)):
+                        raise Untranslatable('statement in `finally`: ' + ast.unparse(f)[:80])
+                exits = [n for part in (s.body, hbody[:-1]) for st in part for n in ast.walk(st)
+                         if isinstance(n, (ast.Return, ast.Raise, ast.Break, ast.Continue))]
+                if exits or not (hbody and isinstance(hbody[-1], ast.Raise) and hbody[-1].exc is None):
+                    raise Untranslatable('try/finally shape')
+                hbody = hbody[:-1] + final + [hbody[-1]]
+            after = [] if ends(hbody) else rest
 
-            def handler(i, env=env, h=h, after=after, outer=handlers):
-                return self.acts(list(h.body) + after, dict(env, **{'#handler': True}), i, outer)
-            return self.acts(list(s.body) + [END_TRY] + rest, env, ind, handlers + [handler])
+            def handler(i, env=env, hbody=hbody, after=after, outer=handlers):
+                return self.acts(hbody + after, dict(env, **{'#handler': True}), i, outer)
+            return self.acts(list(s.body) + [END_TRY] + final + rest, env, ind, handlers + [handler])
         if isinstance(s, ast.Raise):
             if s.exc is None and env.get('#handler'):
                 return pad + '[Prim.reraise]'
@@ -252,6 +272,13 @@ class Acts:
             if isinstance(tgt, ast.Name):
                 if result_kind is not None:
                     env[tgt.id] = result_kind                    # e.g. the name holds the result of get_state()
+                elif self.text(s.value) in self.t.get('entry_reads', {}):
+                    # the local keeps the value the flag had when the method was entered (a parameter); not an
+                    # alias: the attribute is assigned afterwards
+                    attr = self.text(s.value)
+                    if attr in env.get('#written', ()) or tgt.id in self.alias:
+                        raise Untranslatable(f'`{tgt.id} = {attr}` after an assignment to it')
+                    env[tgt.id] = 'bool:' + self.t['entry_reads'][attr]
                 elif isinstance(s.value, (ast.Attribute, ast.Name)):
                     self.alias[tgt.id] = _Alias(self.alias).visit(copy.deepcopy(s.value))      # a plain alias
                 else:
@@ -261,8 +288,17 @@ class Acts:
             decl = self.t.get('assign_prims', {}).get(p)
             if decl is None:
                 raise Untranslatable('assignment to ' + p[:80])
-            prim, want, raises = (tuple(decl) + (None,))[:3]
             vtext = self.text(s.value)
+            if isinstance(decl, list):
+                # a flag with several declared assignments, told apart by the value: a constant or the local that
+                # holds the flag's entry value
+                hit = [d for d in decl if vtext == d[1]
+                       or (isinstance(s.value, ast.Name) and env.get(s.value.id) == d[1])]
+                if len(hit) != 1:
+                    raise Untranslatable(f'`{p} = {vtext[:40]}` is not a declared assignment')
+                decl = hit[0]
+                env['#written'] = tuple(env.get('#written', ())) + (p,)
+            prim, want, raises = (tuple(decl) + (None,))[:3]
             ok = (vtext == want or (result_kind is not None and result_kind == want)
                   or (isinstance(s.value, ast.Name) and env.get(s.value.id) == want))
             if not ok:
@@ -484,11 +520,14 @@ def act_targets():
              node=lambda: checked_body(addons.AddonPersistence.event, 'self, etype, /, **data',
                                        {'super().event': 'etype, **data'}),
              params=[('superRaises', 'Bool'), ('persistent', 'Bool'), ('ready', 'Bool'), ('sync', 'Bool'),
-                     ('inited', 'Bool'), ('saveRaises', 'Bool')],
+                     ('inited', 'Bool'), ('saveRaises', 'Bool'), ('nested', 'Bool')],
              bools={'self.persistent': 'persistent', 'self.sync_state': 'sync'},
              bool_calls={'self.circuit.is_ready': 'ready', 'self.is_initialized': 'inited'},
              fallible={'super().event': ('superRaises', 'superEvent', 'retval')},
-             assign_prims={'self.persistent': ('disable', 'False')},
+             # the flag "an event() of this block is being handled": `nested` = its value at entry
+             entry_reads={'self._persist_event_active': 'nested'},
+             assign_prims={'self.persistent': ('disable', 'False'),
+                           'self._persist_event_active': [('enter', 'True'), ('leave', 'bool:nested')]},
              calls={'self.save_persistent_state()': ('save', 'saveRaises')}),
         dict(name='saveActs', doc='addons.AddonPersistence.save_persistent_state',
              node=lambda: list(fn_node(addons.AddonPersistence.save_persistent_state).body),
@@ -532,6 +571,8 @@ inductive Prim where
   | saveAll        -- `for blk in started_blocks.intersection(<persistent-capable blocks>): blk.save_persistent_state()`
   | stamp          -- `self.persistent_dict['edzed-stop-time'] = time.time()`
   | cleanup        -- `await self._stop_sblocks(started_blocks)`: the first await of the stop
+  | enter          -- `self._persist_event_active = True`
+  | leave          -- `self._persist_event_active = nested` (the value the flag had at entry)
   deriving Repr
 
 /-- the read of `self.persistent_dict['edzed-stop-time']` -/
@@ -734,6 +775,21 @@ def on_enter_expired_def():
     raise Untranslatable('body of InputExp.on_enter_expired')
 
 
+def event_flag_default_def():
+    """the class-level default of the flag `_persist_event_active` (no instance assigns it outside `event`)"""
+    import inspect
+    from edzed import addons
+    name = '_persist_event_active'
+    val = vars(addons.AddonPersistence).get(name, Untranslatable)
+    if not isinstance(val, bool):
+        raise Untranslatable(f'AddonPersistence.{name}: no Boolean class attribute')
+    stores = [n for n in ast.walk(ast.parse(inspect.getsource(addons)))
+              if isinstance(n, ast.Attribute) and n.attr == name and isinstance(n.ctx, (ast.Store, ast.Del))]
+    if len(stores) != 2:          # the two assignments of `event` (translated there)
+        raise Untranslatable(f'{name} is assigned {len(stores)} times in addons.py')
+    return f"def eventFlagDefault : Bool := {'true' if val else 'false'}"
+
+
 def main(outfile, py2lean):
     """`py2lean`: the module tools/py2lean.py (for emit / write_if_changed)"""
     L = [PRELUDE]
@@ -754,6 +810,8 @@ def main(outfile, py2lean):
 
     for t in act_targets():
         py2lean.emit(L, t, wrap(translate_acts), ': the primitive actions in program order')
+    py2lean.emit(L, dict(name='eventFlagDefault', doc='addons.AddonPersistence._persist_event_active'),
+                 wrap(lambda t: event_flag_default_def()), ' (class attribute: the flag of a block no event() has entered)')
 
     def translate_check(t):
         from edzed import simulator
